@@ -32,7 +32,7 @@ type MemoryStore struct {
 	items                    map[string]*Envelope
 	attempts                 []DeliveryAttempt
 	trendRows                []backlogTrendRow
-	order                    []string
+	order                    []*Envelope
 	leases                   map[string]string // lease_id -> item_id
 	notify                   chan struct{}
 	maxDepth                 int
@@ -223,7 +223,7 @@ func (s *MemoryStore) Enqueue(env Envelope) error {
 
 	cpy := env
 	s.items[env.ID] = &cpy
-	s.order = append(s.order, env.ID)
+	s.order = append(s.order, &cpy)
 
 	// Wake up any long-polling Dequeue calls.
 	close(s.notify)
@@ -325,7 +325,7 @@ func (s *MemoryStore) EnqueueBatch(items []Envelope) (int, error) {
 	}
 	for _, env := range prepared {
 		s.items[env.ID] = env
-		s.order = append(s.order, env.ID)
+		s.order = append(s.order, env)
 	}
 
 	close(s.notify)
@@ -476,18 +476,19 @@ func envelopeRetainedBytes(env *Envelope) int64 {
 
 // oldestQueuedLocked returns the oldest queued item that is not already in skip.
 func (s *MemoryStore) oldestQueuedLocked(skip []string) (string, bool) {
-	for _, id := range s.order {
-		env := s.items[id]
-		if env == nil {
+	for i, env := range s.order {
+		// A slot is stale once its item was removed, even if the id was enqueued again.
+		if env == nil || s.items[env.ID] != env {
+			s.order[i] = nil
 			continue
 		}
 		if env.State != StateQueued {
 			continue
 		}
-		if containsID(skip, id) {
+		if containsID(skip, env.ID) {
 			continue
 		}
-		return id, true
+		return env.ID, true
 	}
 	return "", false
 }
@@ -621,13 +622,14 @@ func (s *MemoryStore) Dequeue(req DequeueRequest) (DequeueResponse, error) {
 		s.maybePruneLocked(now)
 
 		var out []Envelope
-		for _, id := range s.order {
+		for i, env := range s.order {
 			if len(out) >= batch {
 				break
 			}
 
-			env := s.items[id]
-			if env == nil {
+			// A slot is stale once its item was removed, even if the id was enqueued again.
+			if env == nil || s.items[env.ID] != env {
+				s.order[i] = nil
 				continue
 			}
 			if env.State != StateQueued {
@@ -1903,10 +1905,10 @@ func (s *MemoryStore) compactOrderLocked() {
 	if len(s.order) <= 4*len(s.items) {
 		return
 	}
-	out := make([]string, 0, len(s.items))
-	for _, id := range s.order {
-		if s.items[id] != nil {
-			out = append(out, id)
+	out := make([]*Envelope, 0, len(s.items))
+	for _, env := range s.order {
+		if env != nil && s.items[env.ID] == env {
+			out = append(out, env)
 		}
 	}
 	s.order = out
